@@ -86,10 +86,10 @@ type ConcResult struct {
 	Fatal      string            `json:"fatal,omitempty"` // output of a run that died (fatal runtime error)
 	GoDeadlock []string          `json:"godeadlock_reports,omitempty"`
 	Races      []string          `json:"race_reports,omitempty"`
+	Unbound    []string          `json:"unbound_allocations_on_nodes,omitempty"` // node lists an allocation whose node id is unset (known finding window)
 	Observed   bool              `json:"observed"`
 	Settled    bool              `json:"settled"`
-	Coq        string            `json:"-"`
-	final      *CoreObs
+	Final      *CoreObs          `json:"final_state,omitempty"`
 }
 
 const (
@@ -594,8 +594,15 @@ func runConcCase(c *ConcCase) *ConcResult {
 			d.settle()
 			r.takeEvents()
 			r.reg.walk(d.core.CC)
-			res.final = d.observe()
+			res.Final = d.observe()
 			res.Observed = true
+			for _, n := range res.Final.Nodes {
+				for _, a := range n.Allocs {
+					if a.Node == "" {
+						res.Unbound = append(res.Unbound, fmt.Sprintf("node %s lists allocation %s of application %s (placeholder=%v) with empty node id", n.ID, a.Key, a.App, a.Ph))
+					}
+				}
+			}
 		}()
 	}
 	concResolve(res, edges, r.reg)
